@@ -122,6 +122,15 @@ Theorem C12_candidates_path_configured :
 Proof. exact path_configured. Qed.
 Print Assumptions C12_candidates_path_configured.
 
+(* ... and no symbol is shared between two calldata of a path either: all the items created along
+   a run carry pairwise distinct symbol indices (the leaves of different transactions' arguments
+   are independent of each other, too) *)
+Theorem C12_path_indep :
+  forall evs s,
+    NoDup (ids (pitems s evs)) /\ forall i, In i (ids (pitems s evs)) -> (p_next s <= i)%nat.
+Proof. exact path_symbols_distinct. Qed.
+Print Assumptions C12_path_indep.
+
 (* non-vacuity: svm.createCalldata on a contract with f(bytes data) and g(uint256[] xs), then the
    path of the call made with f's calldata: data still branches over {0,65,1024}, xs over {3,5} *)
 Example C12_candidates_path_nonvacuous :
